@@ -344,6 +344,11 @@ def sortWith (w : World) (s : NS) (k : SortKey) (rev : Bool) (l : List Nat) : Li
   | .lenLabel => sortByK pairLe (fun t => ((w.lab t).length, w.lab t)) rev l
   | .const => sortByK Nat.ble (fun _ => 0) rev l
 
+/-- CPython's `list.sort` raises `TypeError` as soon as it has to order `None` against a string (or against `None`), and every
+element of a list of two or more takes part in a comparison: sorting by label is refused exactly when there are two or more
+members and one of them has no label (the empty label of the store) -/
+def sortRefused (lab : Nat → String) (l : List Nat) : Bool := decide (2 ≤ l.length) && l.any (fun t => lab t == "")
+
 /-- the loop of `label_taxon_map` seen from one key: `d[t.label] = t` over the members in order, so the *last* member
 whose label is (case-sensitively: equal to; in a `CaseInsensitiveDict`: lower-cased equal to) the key is what it maps to -/
 def scanLast (p : Nat → Bool) : List Nat → Option Nat → Option Nat
@@ -406,6 +411,10 @@ inductive Op where
   | copyKw (n : Nat) (cs mu : Option Bool)            -- `TaxonNamespace(other, is_case_sensitive=…, is_mutable=…)`
   | scopedCopy (n : Nat)                                 -- `taxon_namespace_scoped_copy(memo)`: the namespace itself
   | ltm (n : Nat) (c : Option Bool) (l : String)       -- `label_taxon_map(is_case_sensitive=c).get(l)`
+  /-- a sort by label that `list.sort` refused (`TypeError`), together with the order it left the members in — CPython stops in
+  the middle of its merge, which order that is depends on the interpreter; the harness passes the order it observed and the model
+  accepts any rearrangement of the members -/
+  | sortx (n : Nat) (order : List Nat)
 deriving Repr
 
 inductive Out where
@@ -503,7 +512,9 @@ def stepNs (w : World) (n : Nat) (s : NS) : Op → World × Out
          | .ok s' => (w.setNs n s', .ok)
          | .error e => (w, .err e))
       else (w, .err .typeError)
-  | .sort _ rev => (w.setNs n { s with taxa := sortBy w.lab rev s.taxa }, .ok)
+  | .sort _ rev =>
+    if sortRefused w.lab s.taxa then (w, .err .typeError)
+    else (w.setNs n { s with taxa := sortBy w.lab rev s.taxa }, .ok)
   | .rev _ => (w.setNs n { s with taxa := s.taxa.reverse }, .ok)
   | .clear _ => (w.setNs n s.clear, .ok)
   | .copy _ => ({ w with nss := w.nss ++ [s.copyCtor] }, .nat w.nss.length)
@@ -529,7 +540,12 @@ def stepNs (w : World) (n : Nat) (s : NS) : Op → World × Out
     | (s', r) => (w.setNs n s', exceptOut (fun x => .str x.text) r)
   | .bits _ m => (w, .str (String.ofList (s.bitstring m)))
   | .isIn _ t => (w, .bool (s.contains t))
-  | .sortk _ k rev => (w.setNs n { s with taxa := sortWith w s k rev s.taxa }, .ok)
+  | .sortk _ k rev =>
+    if k = .label ∧ sortRefused w.lab s.taxa = true then (w, .err .typeError)
+    else (w.setNs n { s with taxa := sortWith w s k rev s.taxa }, .ok)
+  | .sortx _ order =>
+    if sortRefused w.lab s.taxa = true ∧ order.isPerm s.taxa = true then (w.setNs n { s with taxa := order }, .err .typeError)
+    else (w, .bad)
   | .btli _ m idx => (w, exceptOut .ids (btl s.a2t m idx))
   | .tbmKw _ taxa labels c first => match taxa, labels with
     | some ts, _ => (match s.taxaBitmask ts 0 with
@@ -549,7 +565,7 @@ def stepNs (w : World) (n : Nat) (s : NS) : Op → World × Out
 /-- the namespace an operation addresses (none for world-level operations) -/
 def Op.ns : Op → Option Nat
   | .mk _ | .mkns _ _ | .relabel _ _ | .mknsImm _ _ => none
-  | .sortk n _ _ | .btli n _ _ | .tbmKw n _ _ _ _ | .copyKw n _ _ | .scopedCopy n | .ltm n _ _
+  | .sortk n _ _ | .btli n _ _ | .tbmKw n _ _ _ _ | .copyKw n _ _ | .scopedCopy n | .ltm n _ _ | .sortx n _
   | .add n _ | .addTaxa n _ | .new n _ | .newTaxa n _ | .req n _ _ | .rm n _ | .del n _ | .rml n _ _ | .dl n _ _
   | .rmlf n _ _ _ | .dlf n _ _ _
   | .sort n _ | .rev n | .clear n | .copy n | .deep n | .setMut n _ | .setCs n _ | .get n _ _ | .find n _ _
